@@ -24,6 +24,9 @@ type c02Config struct {
 	MaxDev   int   `json:"max_dev"`
 	Eager    bool  `json:"eager_own"`
 	Stale    bool  `json:"stale_timeouts"`
+	// Powers (optional): the node under test is the single validator with the largest power, the adversaries hold equal powers
+	// (2,1,1,1: total 5, so that the rounding of the +2/3 threshold matters); NodePos is ignored
+	Powers []int64 `json:"powers,omitempty"`
 }
 
 type c02Case struct {
@@ -58,11 +61,22 @@ type c02Setup struct {
 }
 
 func c02Build(r *vr.Report, c c02Config) *c02Setup {
-	w := newDsWorld([]int64{1, 1, 1, 1}, "c02")
+	powers := c.Powers
+	if len(powers) == 0 {
+		powers = []int64{1, 1, 1, 1}
+	}
+	w := newDsWorld(powers, "c02")
 	w.EagerOwn = c.Eager
 	w.TrackSigned = true
 	s := &c02Setup{w: w, c: c, blk: map[string]types.BlockID{}, vote: map[string]int{}, multi: map[string]int{}, prop: map[string]int{}}
 	s.node = w.proposerOf(int32(c.NodePos))
+	if len(c.Powers) > 0 {
+		for i, v := range w.state0.Validators.Validators {
+			if v.VotingPower > w.state0.Validators.Validators[s.node].VotingPower {
+				s.node = i
+			}
+		}
+	}
 	for i := 0; i < w.N; i++ {
 		if i != s.node {
 			s.adv = append(s.adv, i)
@@ -431,7 +445,7 @@ func c02Replay(r *vr.Report, cs c02Case) (keys, whats []string) {
 func TestVerifC02(t *testing.T) {
 	r := vr.Start("C02", "votes", 170*time.Second, 22*time.Minute)
 	defer r.Finish()
-	r.Rule = "one real consensus.State (power 1 of 4) against three adversarial validators; per configuration (which round the node proposes in) every execution with at most k " +
+	r.Rule = "one real consensus.State (power 1 of 4, or 2 of 5) against three adversarial validators; per configuration (which round the node proposes in) every execution with at most k " +
 		"deviations from the default adversary (proposal for the round, echo of the node's prevote and precommit, pending timeout) is explored; a deviation is any message of the menu " +
 		"(prevote/precommit for nil, A, B or the node's own block from the next adversary or from all remaining adversaries at once, in any round 0..R; proposals of A or B with any POL round; a timeout fired early); " +
 		"states are deduplicated by the node's canonical state including its log of signed messages"
@@ -469,7 +483,10 @@ func TestVerifC02(t *testing.T) {
 			cfgs = append(cfgs, c02Config{NodePos: pos, Strategy: "nilprecommit", MaxRound: 3, MaxDev: dev - 1, Eager: true})
 		}
 	}
+	// the node holds 2 of 5 (the adversaries 1 each): the +2/3 threshold is 4, one adversary's vote on top of the node's own must not be a quorum
+	cfgs = append(cfgs, c02Config{Strategy: "echo", MaxRound: 2, MaxDev: dev - 1, Eager: true, Powers: []int64{2, 1, 1, 1}})
 	if vr.Thorough() {
+		cfgs = append(cfgs, c02Config{Strategy: "split", MaxRound: 3, MaxDev: dev - 1, Eager: true, Powers: []int64{2, 1, 1, 1}})
 		for pos := 0; pos <= 3; pos++ {
 			cfgs = append(cfgs, c02Config{NodePos: pos, Strategy: "echo", MaxRound: 2, MaxDev: dev - 1, Eager: false, Stale: true})
 		}
